@@ -37,6 +37,14 @@ def Exc.name : Exc → String
   | .assertion => "Assertion" | .zeroDivision => "ZeroDivision" | .overflow => "Overflow"
   | .unmodelled => "Unmodelled"
 
+/-- Stable insertion sort (structural, so the kernel can evaluate it): `insertBy` puts `x`
+    before the first element it is `le` to, hence before equal elements that came later. -/
+def insertBy {α} (le : α → α → Bool) (x : α) : List α → List α
+  | [] => [x]
+  | y :: rest => if le x y then x :: y :: rest else y :: insertBy le x rest
+
+def isort {α} (le : α → α → Bool) (l : List α) : List α := l.foldr (insertBy le) []
+
 /-! ## Dimensions -/
 
 abbrev Dim := List Int
@@ -83,7 +91,7 @@ end Dim
 structure Pfx where
   base : Nat
   exp  : Int
-  deriving DecidableEq, Repr, Inhabited, BEq
+  deriving DecidableEq, Repr, Inhabited
 
 namespace Pfx
 
